@@ -153,7 +153,7 @@ def r3_append_output_table(ctx, mod):
                   construct='append_output', sample={'prev': prev, 'new': new, 'lines': me.attrs['output']})
 
 
-def r4_input_fifo(ctx, mod):
+def r4_input_fifo(ctx, mod, sym):
     ctx.rule('R4', "decision table of the input tracker closure: queued inputs are returned front-first and removed, "
                    "the prompt is echoed through print in every non-callable branch, the empty queue yields the fixed "
                    "default '0', and the value is appended once to the current context's inputs")
@@ -168,16 +168,20 @@ def r4_input_fifo(ctx, mod):
               "_track_inputs does not return the tracker", "input() is not tracked")
     for queue, args in itertools.product((['a', 'b'], ['only'], []), ((), ('Prompt? ',))):
         printed = []
-        fd = FD()
+        from ..fdeval import module_resolver
+        fd = FD(max_steps=100000, resolver=module_resolver(sym, mod))
         fd.calls['print'] = lambda *a, **k: printed.append(a)
-        fd.calls['callable'] = lambda x: callable(x)
+        fd.calls['callable'] = lambda x: callable(x) and not isinstance(x, Obj)
         cx = Obj('context', inputs=[])
         me = Obj('sandbox', inputs=list(queue), _context=[Obj('older', inputs=['zzz']), cx], _called_inputs=0,
                  MAXIMUM_INPUTS=100000)
-        env = {'self': me}
-        fd.resolver = lambda name: {'self': me}[name]
+        me.attrs['__classdef__'] = mod.cls('Sandbox')
         try:
-            got = fd.call_function(inner, list(args))
+            # _track_inputs(...) is executed itself and returns the tracker closure, which is then called
+            tracker = fd.call_function(outer, [cx.attrs['inputs']], bound_self=me)
+            if not callable(tracker):
+                raise Inconclusive('_track_inputs did not return a callable (%r)' % (tracker,))
+            got = tracker(*args)
         except (Raised, Inconclusive) as e:
             raise AnalysisError("C15 R4: input tracker outside the decidable fragment: %s" % e)
         want = queue[0] if queue else '0'
@@ -256,7 +260,7 @@ def run(ctx):
     r1_single_writer(ctx, mod)
     r2_per_execution(ctx, mod, sym)
     r3_append_output_table(ctx, mod)
-    r4_input_fifo(ctx, mod)
+    r4_input_fifo(ctx, mod, sym)
     r5_queue_operations(ctx, mod)
     ctx.assume("output that bypasses sys.stdout (sys.__stdout__, os.write) is not captured; with C05.R1 "
                "_stop_mocking runs on every exit")
